@@ -52,7 +52,7 @@ pub const PROPS: &[PropSpec] = &[
         rule: "non-trivial: a builder call sequence in which some option was set more than once or an add_* followed a with_*" },
     PropSpec { id: "C18", families: &[("core", 3), ("bp", 3), ("mw", 2), ("eff", 2)], borrowed: &[], quick_runs: 96_000,
         rule: "non-trivial: the balance equations were evaluated after a clean stop with >=1 dropped, vetoed, rejected or effect-bearing action" },
-    PropSpec { id: "C19", families: &[("two", 10)], borrowed: &[("C01", "two"), ("C03", "two"), ("C04", "two"), ("C18", "two"), ("C08", "two"), ("C16", "two"), ("C09", "two"), ("C10", "two")], quick_runs: 64_000,
+    PropSpec { id: "C19", families: &[("two", 10)], borrowed: &[("C01", "two"), ("C03", "two"), ("C04", "two"), ("C18", "two"), ("C08", "two"), ("C16", "two"), ("C09", "two"), ("C10", "two"), ("C05", "two"), ("C06", "two")], quick_runs: 64_000,
         rule: "non-trivial: operations on the two stores overlapped in time and one store was stopped or dropped while the other still had work" },
 ];
 
